@@ -203,6 +203,9 @@ class Engine:
         self.env_vars = {}
         self.params = {}
         self.fnstack = []
+        self.havoc_leaves = []
+        self.json_docs = []
+        self.region_defs = {}
         self.aspects = {}
         self.incoming_md = None
         self.naming = True
@@ -516,11 +519,11 @@ class Engine:
         self.defs.append((g, b))
         return g
 
-    def expand(self, t):
-        """inline all definitional names (used when a closed-form term over the inputs is needed)"""
+    def expand(self, t, upto=None):
+        """inline definitional names (used when a closed-form term over the inputs is needed)"""
         if not is_sym(t) or not self.defs:
             return t
-        for g, b in reversed(self.defs):
+        for g, b in reversed(self.defs[:upto]):
             t = z3.substitute(t, (g, b))
         return t
 
@@ -902,6 +905,9 @@ class Engine:
         if k == 'func':
             r = (x is None) if y is None else (y is None)
             return r if tok == '==' else (not r)
+        if k in ('struct', 'array') and tok in ('==', '!='):
+            eq = self.val_eq(x, y, xt)
+            return eq if tok == '==' else Not(eq)
         if k != 'int':
             raise Unsupported('binop on kind %s' % k)
         bits, signed = self.int_info(xt)
@@ -942,7 +948,58 @@ class Engine:
             if signed:
                 return sb({'<': a < b, '<=': a <= b, '>': a > b, '>=': a >= b}[tok])
             return sb({'<': z3.ULT(a, b), '<=': z3.ULE(a, b), '>': z3.UGT(a, b), '>=': z3.UGE(a, b)}[tok])
+        if tok in ('/', '%'):
+            self.panic(st, sb(b == 0), 'div0')
+            if tok == '/':
+                return si(a / b if signed else z3.UDiv(a, b), signed)     # z3 bvsdiv truncates like Go
+            return si(z3.SRem(a, b) if signed else z3.URem(a, b), signed)
+        if tok == '&':
+            return si(a & b, signed)
+        if tok == '|':
+            return si(a | b, signed)
+        if tok == '^':
+            return si(a ^ b, signed)
+        if tok == '&^':
+            return si(a & ~b, signed)
+        if tok in ('<<', '>>'):
+            yt = ins['y'].get('t')
+            ybits, _ = self.int_info(yt)
+            sh = to_bv(y, ybits or bits)
+            if (ybits or bits) < bits:
+                sh = z3.ZeroExt(bits - ybits, sh)
+            elif (ybits or bits) > bits:
+                big = z3.UGE(sh, bits)
+                sh = z3.Extract(bits - 1, 0, sh)
+                if tok == '<<':
+                    return si(z3.If(big, bvc(0, bits), a << sh), signed)
+                return si(z3.If(big, (a >> (bits - 1)) if signed else bvc(0, bits), (a >> sh) if signed else z3.LShR(a, sh)), signed)
+            if tok == '<<':
+                return si(z3.If(z3.UGE(sh, bits), bvc(0, bits), a << sh), signed)
+            return si(z3.If(z3.UGE(sh, bits), (a >> (bits - 1)) if signed else bvc(0, bits), (a >> sh) if signed else z3.LShR(a, sh)), signed)
         raise Unsupported('symbolic int op ' + tok)
+
+    def val_eq(self, x, y, t):
+        """== on comparable composite values"""
+        k = self.kind(t)
+        _, d = self.under(t)
+        if k == 'struct':
+            return sb(And(*[self.val_eq(a, b, f['type']) for a, b, f in zip(x, y, d['fields'])]))
+        if k == 'array':
+            return sb(And(*[self.val_eq(a, b, d['elem']) for a, b in zip(x, y)]))
+        if k == 'bool':
+            return sb(zbool(x) == zbool(y)) if (is_sym(x) or is_sym(y)) else x == y
+        if k == 'int':
+            if not is_sym(x) and not is_sym(y):
+                return x == y
+            bits, _ = self.int_info(t)
+            return sb(to_bv(x, bits) == to_bv(y, bits))
+        if k == 'string':
+            return str_eq(x, y)
+        if k == 'ptr':
+            return self.ptr_eq(x, y)
+        if k == 'interface':
+            return self.iface_eq(x, y)
+        raise Unsupported('== on kind %s' % k)
 
     def ptr_eq(self, x, y):
         conds = []
@@ -1529,6 +1586,15 @@ def i_param(e, st, a, i):
     return e.params[a[0].decode()]
 
 
+def i_json_marshal(e, st, a, i):
+    """encoding/json.Marshal(Indent): not executed; the result is an opaque one-cell byte slice that remembers the
+    Go value handed to the encoder (harness oracles observe the tree before marshalling)"""
+    elems = e.T(i['type'])['elems']
+    e.json_docs.append((st.pc, a[0]))
+    obj = e.new_obj(st, (ProtoCell(((True, 'json', a[0]),)),), None)
+    return (SliceV(obj, 0, 1, 1, False), e.zero(elems[1]))
+
+
 def i_proto_marshal(e, st, a, i):
     """proto.Marshal(m): an opaque byte slice that remembers the message value (Unmarshal(Marshal(m)) == m)"""
     m = a[0]
@@ -1620,6 +1686,38 @@ def i_md_from_incoming(e, st, a, i):
     return (e.incoming_md, True)
 
 
+def i_havoc_state(e, st, a, i):
+    """verifrt.HavocState(ptr, name): fresh symbolic leaves for every scalar of the pointee"""
+    iv, name = a[0], a[1].decode()
+    (g, dt, ptr), = iv.alts
+    _, pd = e.under(dt)
+
+    def mkval(t, path):
+        k = e.kind(t)
+        _, d = e.under(t)
+        if k == 'struct':
+            return tuple(mkval(f['type'], path + '.' + f['name']) for f in d['fields'])
+        if k == 'array':
+            return tuple(mkval(d['elem'], '%s[%d]' % (path, j)) for j in range(d['len']))
+        cnt = e.nondet_count.get(path, 0)
+        e.nondet_count[path] = cnt + 1
+        full = '%s#%d' % (path, cnt)
+        if k == 'bool':
+            v = z3.Bool(full)
+        elif k == 'int':
+            bits, signed = e.int_info(t)
+            v = z3.BitVec(full, bits)
+            if signed:
+                e.signed_inputs.add(path)
+        else:
+            raise Unsupported('HavocState leaf of kind %s at %s' % (k, path))
+        e.inputs[full] = v
+        e.havoc_leaves.append((full, v))
+        return v
+    e.store(st, ptr, mkval(pd['elem'], name), None)
+    return None
+
+
 def i_setenv(e, st, a, i):
     e.env_vars[a[0]] = a[1]
     return None
@@ -1640,6 +1738,7 @@ def i_fork(e, st, a, i):
 
 def i_region(e, st, a, i):
     e.regions[a[0].decode()] = a[1]
+    e.region_defs[a[0].decode()] = len(e.defs)
     return None
 
 
@@ -2019,6 +2118,8 @@ INTRINSICS = {
     'github.com/onosproject/onos-lib-go/pkg/uri.WithOpaque': lambda e, st, a, i: None,
     'github.com/onosproject/onos-lib-go/pkg/uri.NewURI': lambda e, st, a, i: NILPTR,
     '(*github.com/onosproject/onos-lib-go/pkg/uri.URI).String': lambda e, st, a, i: b'uuid:1',
+    'encoding/json.MarshalIndent': i_json_marshal,
+    'encoding/json.Marshal': i_json_marshal,
     'github.com/gogo/protobuf/proto.Marshal': i_proto_marshal,
     'github.com/gogo/protobuf/proto.Unmarshal': i_proto_unmarshal,
     'github.com/golang/protobuf/proto.Marshal': i_proto_marshal,
@@ -2065,6 +2166,7 @@ INTRINSICS = {
     'github.com/onosproject/onos-config/internal/verifrt.NondetByte': lambda e, st, a, i: nondet(e, st, a, i, lambda n: z3.BitVec(n, 8)),
     'github.com/onosproject/onos-config/internal/verifrt.Fork': i_fork,
     'github.com/onosproject/onos-config/internal/verifrt.Region': i_region,
+    'github.com/onosproject/onos-config/internal/verifrt.HavocState': i_havoc_state,
     'github.com/onosproject/onos-config/internal/verifrt.Symbolic': lambda e, st, a, i: True,
     'github.com/onosproject/onos-config/internal/verifrt.NondetInt32': lambda e, st, a, i: nondet_signed(e, st, a, i, 32),
     'github.com/onosproject/onos-config/internal/verifrt.Assume': lambda e, st, a, i: setattr(st, 'pc', e.name(sb(And(st.pc, a[0])))),
